@@ -21,7 +21,7 @@ import Hv.Storage.Compact
 import Hv.Basic.Verdict
 
 namespace Hv.C03
-open Hv.Storage
+open Hv.BlockStore
 
 /-- the order covers exactly the live keys (the code iterates over the index map) -/
 def Covers (order : List (Nat × Nat)) (idx : Index) : Prop :=
